@@ -345,7 +345,7 @@ class XGraph(object):
     def _prune(self, st, bid):
         live = self.live[bid]
         return frozenset(f for f in st
-                         if (f[0] in ("z", "nz", "p") and (f[1] in live or f[1] in self.track_paths or f[1] in self.keep_vars)
+                         if (f[0] in ("z", "nz", "p", "neg") and (f[1] in live or f[1] in self.track_paths or f[1] in self.keep_vars)
                              and (f[0] != "p" or f[2] in self.keep_ids))
                          or (f[0] in ("cz", "cnz") and f[1] in self.keep_ids))
 
@@ -368,7 +368,7 @@ class XGraph(object):
 
     # -- transfer ---------------------------------------------------------
     def _kill(self, st, lv):
-        return frozenset(f for f in st if not (f[0] in ("z", "nz", "p") and f[1] == lv))
+        return frozenset(f for f in st if not (f[0] in ("z", "nz", "p", "neg") and f[1] == lv))
 
     def _assign(self, st, lv, rhs):
         st = self._kill(st, lv)
@@ -392,9 +392,11 @@ class XGraph(object):
                 src = self.trackable(r)
                 if c is not None and not vars_in(r) and not fields_in(r):
                     add.add(("z", lv) if c == 0 else ("nz", lv))
+                    if c < 0:
+                        add.add(("neg", lv))
                 elif src is not None and src != lv:
                     for f in st:
-                        if f[0] in ("z", "nz", "p") and f[1] == src:
+                        if f[0] in ("z", "nz", "p", "neg") and f[1] == src:
                             add.add((f[0], lv) + f[2:])
                 elif r.get("k") == "un" and r.get("op") == "&":
                     add.add(("nz", lv))
@@ -470,6 +472,13 @@ class XGraph(object):
             return st
         if k == "bin" and t["op"] == "=":
             return self._truth(st, t["l"], pol)
+        if k == "bin" and t["op"] in (">=", "<") and const_val(t["r"]) == 0:
+            lv = self.trackable(t["l"])
+            if lv is not None and ("neg", lv) in st:
+                # a variable known to hold a negative constant (fd = -1)
+                if (t["op"] == ">=") == pol:
+                    return None
+            return st
         if k == "bin" and t["op"] == "&&" and pol:
             st = self._truth(st, t["l"], True)
             return None if st is None else self._truth(st, t["r"], True)
